@@ -52,7 +52,7 @@ def validate(ctx, d, tracefile, module, invariant, label):
 def run_tv(ctx, cmd, args, module, invariant, evname, sigfn, what, neg=True):
     """Run a harness command that writes an ndjson trace and let TLC validate every event."""
     d = ctx.specdir()
-    tr = "trace-%s.ndjson" % cmd
+    tr = "tv-%s.ndjson" % cmd
     r = ctx.vh_json(cmd, os.path.join(d, tr), *args, timeout=2400)
     for f in r.get("failures") or []:
         ctx.violation(f["Sig"], f["What"], stimulus=f["Stim"], how="vh " + cmd)
